@@ -313,3 +313,31 @@ pub fn h_drain_view<K: Shape, V: Shape, const N: usize>() {
     }
     kani::cover!(take > 0 || N == 0, "reached");
 }
+
+/// Lookups with a key *reference taken from the map itself* (iter/keys), for a key
+/// type whose `==` is not reflexive: the answer must still be the model's (pure `==`).
+pub fn h_lookup_selfref<const N: usize>() {
+    let m: Map<Nr, u8, N> = any_map();
+    let pre = model(&m);
+    let i: usize = kani::any();
+    kani::assume(i < pre.len);
+    let via_keys: bool = kani::any();
+    let kref: &Nr = if via_keys { m.keys().nth(i).unwrap() } else { m.iter().nth(i).unwrap().0 };
+    let exp = pre.get(kref);
+    assert!(m.contains_key(kref) == exp.is_some(), "C01.contains_key: equals model membership, also for a key reference taken from the map itself");
+    assert!(same_opt(&m.get(kref).copied(), &exp.map(|p| p.1)), "C01.get: equals the model lookup, also for a key reference taken from the map itself");
+    assert!(same_opt_pair(&m.get_key_value(kref).map(|(a, b)| (*a, *b)), &exp), "C01.get_key_value: equals the model lookup for a key reference taken from the map itself");
+    kani::cover!(exp.is_none() && pre.len > 0, "reached");
+}
+
+pub fn h_set_selfref<const N: usize>() {
+    let s: crate::Set<Nr, N> = any_set();
+    let pre = smodel(&s);
+    let i: usize = kani::any();
+    kani::assume(i < pre.len);
+    let r: &Nr = s.iter().nth(i).unwrap();
+    let exp = pre.get(r);
+    assert!(s.contains(r) == exp.is_some(), "C07.contains: equals model membership for a reference taken from the set itself");
+    assert!(same_opt(&s.get(r).copied(), &exp.map(|p| p.0)), "C07.get: equals the model lookup for a reference taken from the set itself");
+    kani::cover!(exp.is_none() && pre.len > 0, "reached");
+}
